@@ -37,7 +37,10 @@ def confirm(outdir, which, sid):
             o = "new failures: %s\n" % new_fail + o[-600:]
         ran.append(dict(cmd="cargo test -p %s --offline" % c, passed=passed, tail=o[-600:]))
         ok_tests &= passed
-    rc, o = sh("git apply %s" % demo, cwd=WT); assert rc == 0, "demo does not apply: " + o
+    rc, o = sh("git apply %s" % demo, cwd=WT)
+    if rc != 0:
+        # the hook commits in /repo may have shifted the context of a demo hunk: retry with fuzz
+        rc, o2 = sh("patch -p1 -F3 --no-backup-if-mismatch < %s" % demo, cwd=WT); assert rc == 0, "demo does not apply: " + o + o2
     dcmd = meta["demo_cmd"]
     import re
     dcmd = re.sub(r"CARGO_TARGET_DIR=\S+\s*", "", dcmd)
